@@ -36,7 +36,7 @@ var nastyNums = []float64{0, 1, 2, 3, -1, 0.5, 1.5, 0.1, 1e21, 1e-7, 90071992547
 var smallStrs = []string{"a", "b", "c", ""}
 var nastyStrs = []string{"a", "b", "c", "", "AAAAAAAA", "100%d done", "50%", "a%%20b", "%s%v%!", "$1 \\1 ${x}", "`x`", "'q'", "true", "1", "null", "a/b", "m~n", "-", "0", "01", "<x>&", " ", "é", "😀", "line\nbreak", "tab\t", "q\"uote", "back\\slash", "\x01", "{}", "[]", " "}
 var smallKeys = []string{"a", "b", "c", "d"}
-var nastyKeys = []string{"a", "b", "c", "d", "", "/", "~", "~0", "~1", "~01", "a/b", "m~n", "-", "0", "1", "01", "-1", "<<", "é", "id", "k"}
+var nastyKeys = []string{"a", "b", "c", "d", "", "/", "~", "~0", "~1", "~01", "a/b", "m~n", "-", "0", "1", "01", "-1", "<<", "é", "id", "k", "a ", " ", "\t", " a", "\u00a0", "k\n"}
 
 func DefaultCfg() GenCfg {
 	return GenCfg{MaxDepth: 3, MaxLen: 5, MaxKeys: 3, Nums: smallNums, Strs: smallStrs, Keys: smallKeys, AllowNull: true, AllowBool: true, ScalarBias: 5}
@@ -109,6 +109,11 @@ func (c GenCfg) Arr(r *Rng, depth int) *Val {
 					break
 				}
 			}
+			if len(c.SetKeys) > 1 && r.Chance(1, 5) {
+				// a member that has only some of the set keys (identified by the ones it has)
+				delete(o.O, c.SetKeys[r.Intn(len(c.SetKeys))])
+				id = keyedID(o, c.SetKeys)
+			}
 			if used[id] {
 				continue
 			}
@@ -156,14 +161,7 @@ func dedupKeyed(a []*Val, keys []string) []*Val {
 	out := []*Val{}
 	for _, e := range a {
 		if e.K == KObj {
-			id := ""
-			for _, k := range keys {
-				if kv, ok := e.O[k]; ok {
-					id += kv.Wire() + "|"
-				} else {
-					id += "?|"
-				}
-			}
+			id := keyedID(e, keys)
 			if seen[id] {
 				continue
 			}
@@ -172,6 +170,19 @@ func dedupKeyed(a []*Val, keys []string) []*Val {
 		out = append(out, e)
 	}
 	return out
+}
+
+// keyedID is the tuple of the values of the set keys a member HAS, in key order: members missing a key
+// are identified by the keys they have (the libraries skip missing keys), so {id:1} and {k:1} count as
+// the same identity here and only one of them is kept.
+func keyedID(e *Val, keys []string) string {
+	id := ""
+	for _, k := range keys {
+		if kv, ok := e.O[k]; ok {
+			id += kv.Wire() + "|"
+		}
+	}
+	return id
 }
 
 func (c GenCfg) Obj(r *Rng, depth int) *Val {
